@@ -81,6 +81,11 @@ impl<'a> P<'a> {
                 break;
             }
         }
+        // a Candid record / variant type lists its fields in ascending id order (the encoder writes them
+        // in the order of the type)
+        if v.windows(2).any(|w| w[0].0 > w[1].0) {
+            return Err("the derived type lists its fields out of ascending id order".to_string());
+        }
         v.sort_by_key(|f| f.0);
         for w in v.windows(2) {
             if w[0].0 == w[1].0 {
@@ -151,6 +156,9 @@ impl<'a> P<'a> {
                         self.eat(b'}')?;
                         break;
                     }
+                }
+                if ms.windows(2).any(|w| w[0].0.as_bytes() > w[1].0.as_bytes()) {
+                    return Err("the derived service type lists its methods out of ascending name order".to_string());
                 }
                 ms.sort_by(|a, b| a.0.as_bytes().cmp(b.0.as_bytes()));
                 for w in ms.windows(2) {
